@@ -97,6 +97,11 @@ def scanItem : List Char → Option (Item × List Char)
           | _ => none
         else none
 
+/-- `argname = match.group('name'); if argname is not None: arguments.add(argname)` -/
+def Item.addName : Item → List (List Char) → List (List Char)
+  | .field n, names => n :: names
+  | .lit _, names => names
+
 /-- the `for match in _field_re.finditer(s)` loop with its two tests; `fuel` ≥ the number of characters left -/
 def loop : Nat → List Char → List Item → List (List Char) → Except PErr Result
   | _, [], items, names => .ok { items := items.reverse, names := names.reverse }
@@ -108,10 +113,7 @@ def loop : Nat → List Char → List Item → List (List Char) → Except PErr 
       | none => .error (.crash .AttributeError)
       | some p => .error (.error p)
     | some (it, rest) =>
-      loop fuel rest (it :: items)
-        (match it with
-         | .field n => n :: names
-         | .lit _ => names)
+      loop fuel rest (it :: items) (it.addName names)
 
 /-- `FormatString(s)` -/
 def parse (s : List Char) : Except PErr Result := loop s.length s [] []
